@@ -161,6 +161,22 @@ def find_rsa_small(name, bits, e, want):
     raise RuntimeError("harness: RSA search %s exhausted" % name)
 
 
+def find_rsa_top(name, bits, e, top):
+    """small RSA key whose modulus has exactly `bits` bits and the given most significant octet"""
+    pb = bits // 2
+    p = nt.next_prime((0xC1 << (pb - 8)) | 0x1234567)
+    while nt.gcd(e, p - 1) != 1:
+        p = nt.next_prime(p)
+    nbytes = (bits + 7) // 8
+    q = nt.next_prime(((top << (8 * (nbytes - 1))) + (1 << (8 * (nbytes - 1) - 1))) // p)
+    for _ in range(3000):
+        n = p * q
+        if q != p and nt.gcd(e, q - 1) == 1 and n.bit_length() == bits and _top(n, nbytes) == top:
+            return _rsa_from_primes(name, min(p, q), max(p, q), e)
+        q = nt.next_prime(q)
+    raise RuntimeError("harness: RSA search %s exhausted" % name)
+
+
 def _want_short_crt(kd, x):
     """one CRT value is at least one octet shorter than its modulus (leading zero in fixed width) and one
     other value needs a DER sign octet"""
@@ -308,6 +324,12 @@ def build_keys(acc, quick, pmap=None):
              "p": p, "q": q})
     add(found["rsa512-e3-shortcrt"])
     add(find_rsa_small("rsa521-e65537", 521, 65537, lambda kd, x: True))
+    # the most significant octet of n and of e on both sides of the sign-octet boundary (7f | 80 | 81, ff), and a
+    # modulus of 127 / 128 content octets (DER short / long length form)
+    for bits, top in ((512, 0x80), (512, 0x81), (512, 0xFF), (511, 0x7F), (1016, 0x80), (1015, 0x7F), (1016, 0xFF), (1009, 0x01)):
+        add(find_rsa_top("rsa%d-n%02x" % (bits, top), bits, 65537, top))
+    for e in (0x8001, 0x800001, 0x80000001, 0x7FFF, 0xFF01, 0x81, 0x7F):
+        add(find_rsa_top("rsa512-e%x" % e, 512, e, 0xC3))
     # ---- DSA -------------------------------------------------------------------
     doms = [(1024, 160), (2048, 224), (3072, 256)]
     for L, N in doms:
